@@ -214,7 +214,8 @@ class Ref:
         self.cancel_roots: set[int] = set()  # nodes directly under a
         # cancelled/dropped future
         self.fails = None       # marker / message the compilation fails with
-        self.fail_markers: set[str] = set()
+        self.fail_markers: set[str] = set()      # must fail with one
+        self.may_fail_markers: set[str] = set()  # raised only in may-run
         self.parent: dict[int, int | None] = {}
         self.future_of: dict[int, tuple[int, str]] = {}
         self.nodes: dict[int, dict] = {}
@@ -305,7 +306,8 @@ class Ref:
             else:
                 op = node['ops'][raised_at]
                 m = op.get('marker', 'Cannot await on a canceled task')
-            self.fail_markers.add(m)
+            (self.may_fail_markers if cancelled
+             else self.fail_markers).add(m)
             self.values[nid] = None
             return None
         for op in node['ops']:
